@@ -105,8 +105,31 @@ def c19(tier):
     # (render first with a placeholder, then fill in after the gen phase returns Expected -- simpler: a second TLC pass is avoided by
     #  letting the parser rule list the names in text order and having the oracle walk them in declaration order; so the rule is a
     #  set of alternatives, one per permutation is too many -- instead the rule is `s = t*` over a helper rule with one alternative per name)
+    # variants: some terminals never referenced by the parser, and / or generation with --report (the report pass walks the
+    # grammar too); the numbering must not depend on either
+    variants = []
+    for i, c in enumerate(cases):
+        c["ref_names"] = list(c["text_names"])
+        kinds = [("u", False), ("ur", True), ("r", True)]
+        for tag, rpt in (kinds if i % 3 == 0 else [kinds[i % 3]]):
+            v = json.loads(json.dumps(c))
+            v["text_names"] = [tuple(n) for n in v["text_names"]]
+            v["samples"] = [(tuple(n), rs) for n, rs in v["samples"]]
+            v["files12"] = tuple(v["files12"])
+            v["id"] = c["id"] + "+" + tag
+            names = list(v["text_names"])
+            if "u" in tag:
+                if len(names) < 2:
+                    continue
+                drop = set(rng.sample(range(len(names)), rng.randint(1, max(1, len(names) // 2))))
+                names = [n for k, n in enumerate(names) if k not in drop]
+            v["ref_names"] = names
+            if rpt:
+                v["lox_flags"] = ["--report"]
+            variants.append(v)
+    cases += variants
     for c in cases:
-        alts = " | ".join(name_str(n) for n in c["text_names"])
+        alts = " | ".join(name_str(n) for n in c["ref_names"])
         f1 = c["files12"][0]
         c["lox_files"][f1] += "\n@parser\n@start s = t*\nt = %s\n" % alts
         c["go_text"] = "\n".join([
@@ -146,7 +169,7 @@ def c19(tier):
             ty = toks[k][0] if k < len(toks) else -1
             lexed.append([list(n), ty])
         pt = pcase.scrape_parser(g["parser_src"])
-        done.append({"layout": c["layout"], "consts": consts, "tostring": tostring, "lexed": lexed,
+        done.append({"layout": c["layout"], "ref": [list(x) for x in c["ref_names"]], "consts": consts, "tostring": tostring, "lexed": lexed,
                      "tables": {"actions": pt["actions"], "goto": pt["goto"], "accept": pt["accept"]}})
     json.dump({"phase": "check", "maxlen": 4}, open(os.path.join(sd, "num_phase.json"), "w"))
     json.dump(done, open(os.path.join(sd, "num_done.json"), "w"))
@@ -157,7 +180,7 @@ def c19(tier):
     for b in [l for l in r.lines if l.get("num") == "bad"]:
         c = acc[b["k"]]
         what = [k for k, ok in b["v"].items() if not ok]
-        rep.failure("c19.%s:%s" % ("+".join(what), "-".join(c["layout"])),
+        rep.failure("c19.%s:%s" % ("+".join(what), "-".join(c["layout"]) + c["id"][len("layout-" + "-".join(c["layout"])):]),
                     "layout %s: %s differ from the expected numbering %s; consts %s" % (
                         c["layout"], what, [name_str(n) for n in b["expected"]], c["gen"]["base"]["consts"]),
                     {"id": c["id"], "files": c["lox_files"], "observed": done[b["k"]]})
